@@ -68,6 +68,10 @@ pub struct Scenario {
     pub cfg: Vec<(usize, u8, u64)>,
     /// the SRT source sends nothing during ticks [.0, .1) ((0, 0) = never pauses)
     pub quiet: (usize, usize),
+    /// overload: from tick .0 on, for .1 seconds, the source offers 320 small datagrams per millisecond while the
+    /// event loop gets one scheduling turn per millisecond (time is advanced by hand): the local socket stays
+    /// backlogged ((0, 0) = never)
+    pub flood: (usize, usize),
     /// ticks to observe
     pub ticks: usize,
 }
@@ -84,7 +88,7 @@ impl Scenario {
             })
             .collect();
         format!(
-            "ips={} reloads={} admit2={} pps={} rtt={} nak={}:{}:{} bh={} sack={} forget={} cfg={} quiet={}:{} ticks={}",
+            "ips={} reloads={} admit2={} pps={} rtt={} nak={}:{}:{} bh={} sack={} forget={} cfg={} quiet={}:{} flood={}:{} ticks={}",
             l(&self.ips),
             if rl.is_empty() { "-".into() } else { rl.join(",") },
             self.admit2,
@@ -99,11 +103,13 @@ impl Scenario {
             if self.cfg.is_empty() { "-".to_string() } else { self.cfg.iter().map(|(a, b, c)| format!("{a}:{b}:{c}")).collect::<Vec<_>>().join(",") },
             self.quiet.0,
             self.quiet.1,
+            self.flood.0,
+            self.flood.1,
             self.ticks
         )
     }
 
-    /// Strict: exactly the twelve `key=value` tokens of `render`, in that order; numbers are 1..9 decimal digits.
+    /// Strict: exactly the thirteen `key=value` tokens of `render`, in that order; numbers are 1..9 decimal digits.
     /// (`Srtla.Drv.looptraceWellFormed` accepts exactly the same lines.)
     pub fn parse(toks: &[&str]) -> Option<Scenario> {
         fn num(s: &str) -> Option<u64> {
@@ -123,7 +129,7 @@ impl Scenario {
             }
             Some((num(p[0])?, num(p[1])?, num(p[2])?))
         }
-        if toks.len() != 12 {
+        if toks.len() != 13 {
             return None;
         }
         let val = |i: usize, key: &str| -> Option<&str> { toks[i].strip_prefix(key).and_then(|r| r.strip_prefix('=')) };
@@ -176,11 +182,19 @@ impl Scenario {
             let (a, b) = q.split_once(':')?;
             (num(a)? as usize, num(b)? as usize)
         };
-        let ticks = num(val(11, "ticks")?)? as usize;
+        let flood = {
+            let q = val(11, "flood")?;
+            let (a, b) = q.split_once(':')?;
+            (num(a)? as usize, num(b)? as usize)
+        };
+        if flood.1 > 10 {
+            return None;
+        }
+        let ticks = num(val(12, "ticks")?)? as usize;
         if ticks == 0 || ticks > 200 || pps == 0 || pps > 2000 || rtt_ms > 2000 || reloads.len() > 4 || bh.len() > 4 || cfg.len() > 6 {
             return None;
         }
-        Some(Scenario { ips, reloads, admit2, pps, rtt_ms, nak_every: ne as u32, nak_from: nf as usize, nak_to: nt as usize, bh, sack, forget, cfg, quiet, ticks })
+        Some(Scenario { ips, reloads, admit2, pps, rtt_ms, nak_every: ne as u32, nak_from: nf as usize, nak_to: nt as usize, bh, sack, forget, cfg, quiet, flood, ticks })
     }
 }
 
@@ -286,6 +300,8 @@ pub struct Trace {
     pub client: Vec<(u64, Vec<u8>)>,
     /// (virtual ms, sequence number, uplink that carried the packet, uplink the NAK was sent back on)
     pub naks: Vec<(u64, u32, u8, u8)>,
+    /// the loop stopped publishing housekeeping ticks: none for 10 s of virtual time after this many were seen
+    pub stalled: bool,
 }
 
 #[derive(Default)]
@@ -309,6 +325,7 @@ struct RecvCtl {
     sack: u32,
     forget: usize,
     quiet: (usize, usize),
+    flood: (usize, usize),
     t0: tokio::time::Instant,
     logs: std::sync::Mutex<Logs>,
 }
@@ -327,8 +344,11 @@ fn octet(ip: IpAddr) -> u8 {
 }
 
 /// The 1316-byte data packet with sequence number `seq` (16-byte SRT data header, patterned payload).
+pub const FLOOD_SEQ0: u32 = 0x2000_0000;
+
 pub fn source_packet(seq: u32) -> Vec<u8> {
-    let mut pkt = vec![0u8; 1316];
+    // the overload phase uses small datagrams from a sequence range of its own
+    let mut pkt = vec![0u8; if seq >= FLOOD_SEQ0 { 64 } else { 1316 }];
     pkt[0..4].copy_from_slice(&seq.to_be_bytes());
     for (i, b) in pkt.iter_mut().enumerate().skip(16) {
         *b = (seq as usize * 31 + i * 7) as u8;
@@ -505,10 +525,27 @@ async fn srt_source(port: u16, pps: u32, ctl: Arc<RecvCtl>) {
         });
     }
     let mut seq: u32 = 1000;
+    let mut flooded = false;
     let mut pace = tokio::time::interval(Duration::from_micros(1_000_000 / u64::from(pps.max(1))));
     loop {
         pace.tick().await;
         let tick = ctl.tick.load(Ordering::Relaxed);
+        if ctl.flood.1 != 0 && !flooded && tick >= ctl.flood.0 {
+            // overload: 320 small datagrams per millisecond, one scheduling turn for everybody else per millisecond
+            flooded = true;
+            let mut fseq: u32 = FLOOD_SEQ0;
+            for _ in 0..ctl.flood.1 * 1000 {
+                for _ in 0..320 {
+                    let pkt = source_packet(fseq);
+                    let now = ctl.now();
+                    ctl.logs.lock().unwrap().src.push((now, fseq));
+                    fseq = (fseq + 1) & 0x7fff_ffff;
+                    let _ = sock.try_send_to(&pkt, dst);
+                }
+                tokio::time::advance(Duration::from_millis(1)).await;
+            }
+            continue;
+        }
         if tick >= ctl.quiet.0 && tick < ctl.quiet.1 {
             continue;
         }
@@ -564,6 +601,7 @@ pub fn run(sc: &Scenario) -> Result<Trace, &'static str> {
             sack: sc.sack,
             forget: sc.forget,
             quiet: sc.quiet,
+            flood: sc.flood,
             t0,
             logs: Default::default(),
         });
@@ -573,16 +611,34 @@ pub fn run(sc: &Scenario) -> Result<Trace, &'static str> {
         let hub = SubscriptionHub::new();
         let (push_tx, mut push_rx) = mpsc::channel::<String>(4096);
         hub.subscribe("stats", push_tx).await;
+        // a second subscriber of the same topic that never reads (a suspended dashboard): its one-slot queue is full
+        // after the first tick, and nothing about the loop may depend on it
+        let (stuck_tx, _stuck_rx) = mpsc::channel::<String>(1);
+        hub.subscribe("stats", stuck_tx).await;
         let binder: Arc<dyn UplinkBinder> = Arc::new(SourceIpBinder);
         let file = path2.to_string_lossy().into_owned();
         let config = DynamicConfig::new();
         let sender = run_sender_with_config(srt_port, "127.0.0.1", rx_port, &file, config.clone(), SharedStats::new(), CriticalWindow::new(), hub.clone(), binder);
         tokio::pin!(sender);
+        let stalled = std::cell::Cell::new(false);
         let scenario = async {
             let mut trace: Vec<Tick> = Vec::new();
             let mut next_reload = 0usize;
             let mut run2 = 0usize;
-            while let Some(line) = push_rx.recv().await {
+            loop {
+                // one tick per second: ten seconds of virtual time without one (sixty before the first) = the loop is stuck
+                let wait = if trace.is_empty() { 60 } else { 10 };
+                let line = match tokio::time::timeout(Duration::from_secs(wait), push_rx.recv()).await {
+                    Ok(Some(line)) => line,
+                    Ok(None) => break,
+                    Err(_) => {
+                        if trace.is_empty() {
+                            return Err("looptrace-skipped:not-up");
+                        }
+                        stalled.set(true);
+                        break;
+                    }
+                };
                 let n = trace.len() + 1;
                 ctl.tick.store(n, Ordering::Relaxed);
                 let Ok(v) = serde_json::from_str::<serde_json::Value>(&line) else { return Err("looptrace-skipped:undecodable") };
@@ -661,7 +717,7 @@ pub fn run(sc: &Scenario) -> Result<Trace, &'static str> {
         };
         r.map(|ticks| {
             let mut l = ctl.logs.lock().unwrap();
-            Trace { ticks, rx: std::mem::take(&mut l.rx), tx: std::mem::take(&mut l.tx), src: std::mem::take(&mut l.src), client: std::mem::take(&mut l.client), naks: std::mem::take(&mut l.naks) }
+            Trace { ticks, rx: std::mem::take(&mut l.rx), tx: std::mem::take(&mut l.tx), src: std::mem::take(&mut l.src), client: std::mem::take(&mut l.client), naks: std::mem::take(&mut l.naks), stalled: stalled.get() }
         })
     });
     verif_clock::set(None);
@@ -891,6 +947,7 @@ pub fn generate(rng: &mut crate::Rng, for_cc: bool) -> Scenario {
             Vec::new()
         },
         quiet: (0, 0),
+        flood: (0, 0),
         ticks: rng.range(40, 60) as usize,
     }
 }
@@ -924,8 +981,29 @@ pub fn monitors_e2e(trace: &Trace, sc: &Scenario, mon: &mut crate::Mon) {
     let what = sc.render();
     let links: BTreeSet<u8> = trace.rx.iter().map(|e| e.link).collect();
 
+    // ---- the loop itself keeps running: a housekeeping pass every second whatever the subscribers of its statistics do
+    if trace.stalled {
+        let last = trace.ticks.last().map(|t| t.n).unwrap_or(0);
+        let what2 = format!("real event loop [{what}]: after tick {last} the loop published no housekeeping tick for 10 s of virtual time (a second `stats` subscriber with a one-slot queue never reads): the loop is stuck - nothing is routed, no keepalive is sent");
+        mon.fail("C03", "e2e-loop-stalled", what2.clone());
+        mon.fail("C20", "e2e-loop-stalled", what2.clone());
+        mon.fail("C14", "e2e-loop-stalled", what2.clone());
+        mon.fail("C01", "e2e-loop-stalled", what2);
+    }
+    // ---- C14 cadence at its source: keepalives are sent by the housekeeping pass, so two consecutive passes are
+    // never more than two periods apart, however busy the data path is
+    for k in 1..trace.ticks.len() {
+        let gap = trace.ticks[k].at.saturating_sub(trace.ticks[k - 1].at);
+        if gap > 2500 {
+            mon.fail("C14", "e2e-housekeeping-starved", format!("real event loop [{what}]: {gap} ms of virtual time between the housekeeping passes of ticks {k} and {}: no keepalive can have been sent on any uplink in between, though the loop kept forwarding data", k + 1));
+            break;
+        }
+    }
+    if sc.flood.1 != 0 {
+        mon.count("e2e-scenario-with-overload");
+    }
     // ---- C01: what an uplink puts on the wire is a source datagram, byte for byte, and per uplink in source order
-    let mut last_seq: BTreeMap<(u8, u16), u32> = BTreeMap::new();
+    let mut last_seq: BTreeMap<(u8, u16, bool), u32> = BTreeMap::new();
     let mut seen_on: BTreeMap<u32, Vec<u8>> = BTreeMap::new();
     let sent: BTreeMap<u32, u64> = trace.src.iter().map(|(at, s)| (*s, *at)).collect();
     for e in &trace.rx {
@@ -935,14 +1013,15 @@ pub fn monitors_e2e(trace: &Trace, sc: &Scenario, mon: &mut crate::Mon) {
                 mon.fail("C01", "e2e-corrupted", format!("real event loop [{what}]: uplink 127.0.0.{} put a data packet on the wire (sequence field {seq}) that is not byte-identical to a datagram the SRT source sent", e.link));
                 continue;
             }
-            if let Some(p) = last_seq.get(&(e.link, e.port)) {
+            // (the overload phase has a sequence range of its own: order is judged within a range)
+            if let Some(p) = last_seq.get(&(e.link, e.port, *seq >= FLOOD_SEQ0)) {
                 if *seq == *p {
                     mon.fail("C01", "e2e-sent-twice-on-link", format!("real event loop [{what}]: uplink 127.0.0.{} sent datagram {seq} twice", e.link));
                 } else if *seq < *p {
                     mon.fail("C01", "e2e-order", format!("real event loop [{what}]: uplink 127.0.0.{} sent datagram {seq} after {p}", e.link));
                 }
             }
-            last_seq.insert((e.link, e.port), *seq);
+            last_seq.insert((e.link, e.port, *seq >= FLOOD_SEQ0), *seq);
             seen_on.entry(*seq).or_default().push(e.link);
         }
     }
@@ -973,6 +1052,11 @@ pub fn monitors_e2e(trace: &Trace, sc: &Scenario, mon: &mut crate::Mon) {
     };
     let first_arrival = trace.rx.iter().find(|e| matches!(e.kind, RxKind::Data { .. })).map(|e| e.at);
     let last_tick_at = trace.ticks.last().map(|t| t.at).unwrap_or(0);
+    // virtual-time window of the overload phase (its datagrams are in the source log)
+    let flood_window: Option<(u64, u64)> = {
+        let mut it = trace.src.iter().filter(|(_, s)| *s >= FLOOD_SEQ0).map(|(at, _)| *at);
+        it.next().map(|first| (first, it.last().unwrap_or(first)))
+    };
     let mut lost: Vec<u32> = Vec::new();
     let mut judged = 0usize;
     let mut worst_hold: (u64, u32) = (0, 0);
@@ -984,7 +1068,9 @@ pub fn monitors_e2e(trace: &Trace, sc: &Scenario, mon: &mut crate::Mon) {
     }
     if let Some(fa) = first_arrival {
         for (at, seq) in &trace.src {
-            if *at <= fa + 50 || *at + 1500 > last_tick_at {
+            let near_overload = flood_window.is_some_and(|(a, b)| *at + 100 >= a && *at <= b + 5000);
+            if *at <= fa + 50 || *at + 1500 > last_tick_at || *seq >= FLOOD_SEQ0 || near_overload {
+                // (what the source offers during an overload may be dropped by the kernel before the sender reads it)
                 continue;
             }
             let (b, a) = bracket(trace, *at);
@@ -1167,6 +1253,9 @@ pub fn monitors_e2e(trace: &Trace, sc: &Scenario, mon: &mut crate::Mon) {
                 let timeout_ms = timeout_at(k + 1);
                 if let Some(h) = heard {
                     let silent = trace.ticks[k].at.saturating_sub(h);
+                    if silent < timeout_ms && sc.cfg.iter().any(|(t, key, _)| *key == 3 && *t < k + 1) {
+                        mon.fail("C18", "e2e-timeout-not-in-force", format!("real event loop [{what}]: set_conn_timeout put {timeout_ms} ms in force before tick {}, yet uplink 127.0.0.{o} was torn down at tick {} after only {silent} ms of silence: the setting did not take effect for this uplink", k + 1, k + 1));
+                    }
                     if silent < timeout_ms {
                         mon.fail("C08", "e2e-torn-down-early", format!("real event loop [{what}]: uplink 127.0.0.{o} went from connected to not connected at tick {} (t={}) although the receiver last sent it something at {h}, {silent} ms earlier - less than the configured timeout of {timeout_ms} ms, and no send failed", k + 1, trace.ticks[k].at));
                     } else {
@@ -1479,6 +1568,7 @@ pub fn generate_e2e(rng: &mut crate::Rng, idx: usize) -> Scenario {
         } else {
             (0, 0)
         },
+        flood: (0, 0),
         ticks,
     };
     // one scenario in eight: an uplink is removed by a reload and the source falls silent in the very tick that
@@ -1517,6 +1607,32 @@ pub fn generate_e2e(rng: &mut crate::Rng, idx: usize) -> Scenario {
         sc.cfg.push((3, 3, 20000));
         sc.cfg.push((from + rng.range(5, 10) as usize, 2, 0));
         sc.cfg.sort();
+    }
+    // overload (only in the check of C14, and in unspecific runs: it costs seconds): the source outruns the loop for 3 s
+    if kind == 5 && idx < 16 && matches!(std::env::var("VERIF_PROP").as_deref(), Ok("C14") | Err(_)) {
+        sc.flood = (rng.range(8, 14) as usize, 3);
+        sc.bh.clear();
+        sc.forget = 0;
+        sc.reloads.clear();
+        sc.quiet = (0, 0);
+        sc.cfg.clear();
+        sc.ticks = sc.ticks.min(40);
+    }
+    // timeout raised at run time, then an uplink added by a reload goes silent: the NEW uplink is judged against
+    // the configured timeout too
+    if kind == 4 {
+        sc.ips = vec![1, 2];
+        let at = rng.range(6, 9) as usize;
+        sc.reloads = vec![(Trigger::AtTick(at), vec![1, 2, 3])];
+        // (the new uplink needs a few ticks to register before it can go silent)
+        let from = at + rng.range(8, 12) as usize;
+        sc.bh = vec![(3, from, from + rng.range(8, 14) as usize)];
+        sc.forget = 0;
+        sc.quiet = (0, 0);
+        sc.cfg.retain(|(_, k, _)| *k != 3);
+        sc.cfg.push((3, 3, 20000));
+        sc.cfg.sort();
+        sc.ticks = sc.ticks.max(from + 20);
     }
     // one scenario in six: switch to classic mode at run time, then the source pauses for a while
     if kind == 2 {
